@@ -239,7 +239,15 @@ async def _play(w: World, hist: list, timeout: float = 20.0) -> None:
 
 def play(seed: int, now: tuple[int, int], hist: list, h: str = "SHA512") -> list[dict]:
     w = World(seed, now, h)
-    asyncio.run(_play(w, hist))
+    try:
+        with taps.time_limit(120):
+            asyncio.run(_play(w, hist))
+    except taps.Hang:
+        begun = [e["o"] for e in w.events if e["ev"] == "begin"]
+        ended = {e["o"] for e in w.events if e["ev"] == "end"}
+        for o in begun:
+            if o not in ended:
+                w.events.append({"ev": "end", "o": o, "named": ["-", "-", -1, -1, -1], "res": "hang"})
     return w.events
 
 
@@ -302,6 +310,39 @@ def _emit_behaviours(ctx: Ctx, n: int) -> list[tuple[tuple[int, int], list]]:
         for h in r.cases("CASE"):
             out.append(((10, 0), h))
         ctx.cov["tlc_runs"].append({"what": f"behaviour emission (simulate) variant {k}", "module": "MC_KeyCache", "behaviours": len(out), "wall_s": round(r.wall, 1)})
+    # every interleaving of 3 concurrent unprotects on ONE (root key, SD, L0) triple over cross-ordered positions
+    # ((5,31) vs (10,0): smaller L1, larger L2), reduced to begin/finish order (reply delivered right before finish)
+    cfg = _write_mc_cfg(ctx, "emit-conc.cfg", emit="1", SDs="MC_SD1", L0s="MC_L0now", Positions="MC_Pos3")
+    with open(cfg, "a") as f:
+        f.write("CONSTRAINT OnlyConcurrentUnprotects\n")
+    r = run_tlc("MC_KeyCache", cfg, rundir=ctx.rundir, workers=8, timeout=1800, tag="emitconc", heap="6g")
+    if r.errors:
+        raise MachineryError(f"behaviour emission (concurrent) failed: {r.errors[:3]} {r.out[-800:]}")
+    classes: dict = {}
+    for h in r.cases("CASE"):
+        if sum(1 for e in h if e[0] == "begin") < 3:
+            continue
+        key = tuple((e[0], e[1], tuple(e[6]) if e[0] == "begin" else None) for e in h if e[0] in ("begin", "finish"))
+        if key in classes:
+            continue
+        replies = {e[1]: e for e in h if e[0] == "reply"}
+        canon = []
+        for e in h:
+            if e[0] == "begin":
+                canon.append(e)
+            elif e[0] == "finish":
+                if e[1] in replies:
+                    canon.append(replies[e[1]])
+                canon.append(e)
+        classes[key] = canon
+    conc = sorted(classes.values(), key=lambda x: json.dumps(x))
+    ctx.cov["tlc_runs"].append({"what": "all interleavings of 3 concurrent unprotects on one triple (begin/finish order classes)", "module": "MC_KeyCache",
+                                "classes": len(conc), "wall_s": round(r.wall, 1)})
+    ctx.cov["states"] += r.distinct
+    ctx.cov["transitions"] += r.generated
+    if not ctx.thorough:
+        conc = ctx.rng.sample(conc, min(len(conc), 420))
+    out = [((10, 0), h) for h in conc] + out
     seen = set()
     uniq = []
     for now, h in out:
@@ -317,7 +358,8 @@ def _random_histories(ctx: Ctx, n: int) -> list[tuple[tuple[int, int], list]]:
     out = []
     rng = ctx.rng
     for _ in range(n):
-        now = (rng.randrange(32), rng.randrange(32))
+        now = (rng.randrange(32), rng.randrange(32)) if rng.random() < 0.7 else rng.choice([(31, 31), (0, 0), (31, 0), (0, 31), (30, 31)])
+        focus = (rng.choice(["rk1", "rk2"]), rng.choice(["sdA", "sdB"]), rng.choice([1, 2])) if rng.random() < 0.7 else None
         ops = [f"o{i+1}" for i in range(rng.randrange(2, 6))]
         pool = [(rng.randrange(32), rng.randrange(32)) for _ in range(3)] + [(31, 31), (0, 0), now]
         hist: list = []
@@ -337,18 +379,18 @@ def _random_histories(ctx: Ctx, n: int) -> list[tuple[tuple[int, int], list]]:
                 hist.append(["load", loads.pop()])
             elif c == "begin":
                 o = todo.pop(0)
-                sync = rng.random() < 0.3
+                sync = rng.random() < 0.25
                 if rng.random() < 0.75:
-                    l0 = rng.choice([1, 2])
+                    l0 = focus[2] if focus else rng.choice([1, 2])
                     cand = [p for p in pool if l0 == 1 or p <= now]
                     pos = rng.choice(cand) if cand else (0, 0)
                     if l0 == 2 and pos > now:
                         pos = now
-                    hist.append(["begin", o, "unprotect", rng.choice(["rk1", "rk2"]), rng.choice(["sdA", "sdB"]), l0, list(pos), sync])
+                    hist.append(["begin", o, "unprotect", focus[0] if focus else rng.choice(["rk1", "rk2"]), focus[1] if focus else rng.choice(["sdA", "sdB"]), l0, list(pos), sync])
                     later_ok = [q for q in pool + [(31, 31)] if q >= pos and (l0 == 1 or q <= now)]
                     q = rng.choice(later_ok) if later_ok and rng.random() < 0.5 else pos
                 else:
-                    hist.append(["begin", o, "protect", rng.choice(["rk1", "rk2", NORK]), rng.choice(["sdA", "sdB"]), -1, [-1, -1], sync])
+                    hist.append(["begin", o, "protect", (focus[0] if focus and rng.random() < 0.7 else rng.choice(["rk1", "rk2", NORK])), (focus[1] if focus else rng.choice(["sdA", "sdB"])), -1, [-1, -1], sync])
                     q = now
                 kind = "pub" if rng.random() < 0.15 else "rpc"
                 if sync:
@@ -398,7 +440,7 @@ def run(ctx: Ctx) -> int:
     _model_check(ctx)
     refdc.ensure_ntlm_users()
     emitted = _emit_behaviours(ctx, ctx.pick(1200, 12000))
-    emitted = emitted[: ctx.pick(500, 6000)]
+    emitted = emitted[: ctx.pick(900, 9000)]
     rows = _run_histories(ctx, emitted, 0, "tlc-behaviour")
     rnd = _random_histories(ctx, ctx.pick(400, 6000))
     rows += _run_histories(ctx, rnd, 1_000_000, "random-driver")
